@@ -14,4 +14,5 @@ INVARIANT DesignLeavesSimParams
 INVARIANT SimParamsOnlyTemporarilyChanged
 INVARIANT EverythingDesigned
 INVARIANT LibraryUnchanged
+INVARIANT ExportUnaffectedByPropagation
 PROPERTY DesignAsAWholeKeepsSimParams
